@@ -710,7 +710,12 @@ Judge(S, st) ==
                        /\ \A x \in DOMAIN S.conns : CountSeq(outs, LAMBDA o : o.m.k = "Shutdown" /\ o.c = x) <= 1
                       THEN T4 ELSE Bad(T4, "C09", "broker shutdown did not send exactly one shutdown message to each connection"))
               ELSE T4
-      T6 == IF T5.ok THEN DumpCheck(T5, st) ELSE T5
+      \* C05: a sender that was announced more credit than the receiver granted will, by using it,
+      \* either be cut off within its announced capacity or make the broker forward beyond the grant
+      T5b == IF T5.ok /\ \E k \in DOMAIN T5.chans : T5.chans[k].snd.st = "C" /\ T5.chans[k].rcv.st = "C" /\ Gt(T5.chans[k].sc, T5.chans[k].rc)
+               THEN Bad(T5, "C05", "the sender has been announced more capacity than the receiver granted")
+               ELSE T5
+      T6 == IF T5b.ok THEN DumpCheck(T5b, st) ELSE T5b
   IN [T6 EXCEPT !.inp = NoInp, !.outs = <<>>, !.rems = <<>>]
 
 \* ---------------------------------------------------------------------------------------------
